@@ -23,6 +23,9 @@ type c14Val struct {
 var c14Vals = []c14Val{
 	{"true", true, true, "true"}, {"false", false, false, ""}, {"one", 1, true, "1"}, {"zero", 0, false, ""}, {"str", "abc", true, "abc"}, {"empty", "", false, ""},
 	{"nil", nil, false, ""}, {"i8zero", int8(0), false, ""}, {"f32", float32(2.5), true, "2.5"}, {"u16", uint16(7), true, "7"}, {"sp", "a b", true, "a b"}, {"amp", "x&y", true, "x&y"},
+	// string forms that depend on the Go type: a float32 that is not exact in binary, wide integers, floats in exponent form
+	{"f32-0.1", float32(0.1), true, "0.1"}, {"f32-72.3", float32(72.3), true, "72.3"}, {"f32-1.1", float32(1.1), true, "1.1"}, {"f64-0.1", 0.1, true, "0.1"}, {"f64-1e21", 1e21, true, "1e+21"},
+	{"f64-1e-7", 1e-7, true, "1e-07"}, {"i64-big", int64(1) << 40, true, "1099511627776"}, {"u64-max", ^uint64(0), true, "18446744073709551615"}, {"i-neg", -12, true, "-12"}, {"u8", uint8(200), true, "200"},
 }
 
 type c14Case struct {
